@@ -48,7 +48,17 @@ def gen_histories(rng, d, n, prefix, with_foreign=True):
             cs = g.cs
             a, b2, c3 = rng.sample(range(0, 30), 3)
             ops = []
-            if rng.random() < 0.5:
+            if rng.random() < 0.35:
+                # (c) one discard across an L2 slice boundary (512-byte slices: 64 clusters each): the second slice starts
+                # with unallocated clusters, a synced cluster follows; then the freed host clusters are reused
+                g = hist.Geom(cbx, g.ro, 200 << cbx, 9, (9, rng.choice([2, 8]) << 9), g.rb, punch=g.punch)
+                flat = hist.Flat(g.size)
+                sl = rng.choice([1, 2])
+                a1 = sl * 64 - rng.randrange(1, 4)
+                a2 = sl * 64 + rng.randrange(1, 6)
+                ops += [('W', a1 * cs, cs, 1), ('W', a2 * cs, cs, 2), ('W', 3 * cs, cs, 3), ('F',), ('S',),
+                        ('D', a1 * cs, (a2 - a1 + 1) * cs), ('W', 100 * cs, cs, 4), ('W', 101 * cs, rng.choice([512, cs]), 5)]
+            elif rng.random() < 0.5:
                 ops += [('W', a * cs, cs, 1), ('F',), ('S',), ('D', a * cs, cs), ('W', b2 * cs + rng.choice([0, 512]), 512, 2)]
                 if rng.random() < 0.5:
                     ops.append(('W', c3 * cs, cs, 3))
@@ -230,6 +240,8 @@ def run_prop(prop, tier, seed, replay):
     if prop == 'C04':
         # soundness of the checker that judges the crash images
         gate = common.proof_gate('C04', ['Spec/Entries.v', 'Spec/Image.v', 'Model/Crash.v', 'Proofs/SpecProps.v', 'Proofs/CrashProps.v', 'Props/C04.v'])
+    if prop == 'C05':
+        gate = common.proof_gate('C05', ['Model/Crash.v', 'Proofs/CrashProps.v', 'Props/C05.v'])
     rc, out = qv.harness_build()
     if rc != 0:
         print(out[-3000:])
@@ -282,6 +294,50 @@ def run_prop(prop, tier, seed, replay):
                     continue
                 stats['discipline_undisciplined_without_unsafe_image'] += 1
         imgs = []
+        must = 0
+        if prop == 'C05' and syncs:
+            # slots of guest clusters that no later operation targets must not be written after the sync point
+            # (Props/C05.v: then they keep their value in every later crash state); a slot that IS written again
+            # gives crash images that the library has to read correctly - they are opened below, unsampled
+            import cells
+            try:
+                dec = cells.decode(f0, reqs)
+                tie = cells.check_syncs(dec)
+            except cells.Undecodable as e:
+                dec, tie = None, str(e)
+            if dec is None or tie:
+                stats['slot_frame_not_applicable: %s' % ' '.join(str(tie).split()[:5])] += 1
+            else:
+                allok = True
+                for (soi, sidx, synced, later, later_ops, slabel) in syncs:
+                    targeted = set()
+                    for o in later_ops:
+                        if o[0] in ('W', 'D'):
+                            ncl_ = (c['g'].size + c['g'].cs - 1) // c['g'].cs
+                            targeted.update(range(min(ncl_, o[1] // c['g'].cs), min(ncl_, (o[1] + max(o[2], 1) - 1) // c['g'].cs + 1)))
+                    rw = cells.rewritten_synced_slots(dec, sidx, targeted)
+                    for (gc, slot, oldt, newt, ri) in rw[:3]:
+                        allok = False
+                        durable = bytearray(f0)
+                        pend = []
+                        for i2, r2 in enumerate(reqs[:ri + 1]):
+                            if not r2['ok'] or r2['kind'] == 'R':
+                                continue
+                            if r2['kind'] == 'S':
+                                for p2 in pend:
+                                    crash.apply(durable, p2)
+                                pend = []
+                            else:
+                                pend.append(r2)
+                        only = bytearray(durable)
+                        crash.apply(only, reqs[ri])
+                        imgs.append((ri, 'after request %d: only that request persisted (it rewrites the mapping slot of guest cluster %d, synced as %s, to %s, although no later operation targets the cluster)' % (ri, gc, oldt, newt), bytes(only)))
+                        allimg = bytearray(durable)
+                        for p2 in pend:
+                            crash.apply(allimg, p2)
+                        imgs.append((ri, 'after request %d: everything pending persisted (request rewrites the synced mapping slot of guest cluster %d)' % (ri, gc), bytes(allimg)))
+                stats['histories_with_every_synced_slot_stable' if allok else 'histories_with_rewritten_synced_slots'] += 1
+            must = len(imgs)
         for (pi, desc, data) in crash.crash_images(f0, reqs, rng, budget):
             imgs.append((pi, desc, data))
         npoints += len(set(p for p, _, _ in imgs))
@@ -310,21 +366,50 @@ def run_prop(prop, tier, seed, replay):
             metas = {}
             chain = c['images'][1:] if c['images'] else []
             total = c['g'].size // 512 * 512
+            # clusters read on every crash image: all of a small disk; on a larger one the clusters any operation
+            # touches, their neighbours and a random sample
+            csz = c['g'].cs
+            ncl = (total + csz - 1) // csz
+            if ncl <= 300:
+                rd_clusters = list(range(ncl))
+            else:
+                cl = set()
+
+                def _ops(ol):
+                    for o in ol:
+                        if o[0] == 'par':
+                            yield from _ops(o[1])
+                        else:
+                            yield o
+                for o in _ops(c['ops']):
+                    if o[0] in ('W', 'D', 'R'):
+                        lo_c, hi_c = o[1] // csz, (o[1] + max(o[2], 1) - 1) // csz
+                        cl.update(range(max(0, lo_c - 1), min(ncl, hi_c + 2)))
+                cl.update(rng.sample(range(ncl), 24))
+                rd_clusters = sorted(x for x in cl if x < ncl)
+            rd_runs = []
+            for x in rd_clusters:
+                if rd_runs and rd_runs[-1][1] == x and (x - rd_runs[-1][0]) < 4:
+                    rd_runs[-1][1] = x + 1
+                else:
+                    rd_runs.append([x, x + 1])
+            rd_blocks = []
+            rd_lines = []
+            for lo_c, hi_c in rd_runs:
+                off, end = lo_c * csz, min(hi_c * csz, total)
+                if off < end:
+                    rd_lines.append('R %d %d' % (off, end - off))
+                    rd_blocks.extend(range(off // 512, end // 512))
             for j, (pi, desc, data) in enumerate(imgs):
                 sp = [s for s in syncs if s[1] <= pi]
                 if not sp:
                     continue
                 soi = len(sp) - 1
-                if rng.random() > (0.5 if tier == 'quick' else 0.8):
+                if j >= must and rng.random() > (0.5 if tier == 'quick' else 0.8):
                     continue
                 ccid = '%s_x%d' % (cid, j)
                 lines = ['case ' + ccid, 'image file ' + paths[j]] + ['image file ' + b for b in chain] + ['open ' + c['g'].params(ro=1)]
-                off = 0
-                chunk = max(4 * c['g'].cs, 4096)
-                while off < total:
-                    ln = min(chunk, total - off)
-                    lines.append('R %d %d' % (off, ln))
-                    off += ln
+                lines += rd_lines
                 lines.append('end')
                 texts.append((ccid, '\n'.join(lines) + '\n'))
                 metas[ccid] = (soi, pi, desc, j)
@@ -348,7 +433,7 @@ def run_prop(prop, tier, seed, replay):
                             break
                         vals.extend(body[2:])
                 if bad is None:
-                    for b, v in enumerate(vals):
+                    for b, v in zip(rd_blocks, vals):
                         want = synced.get(b, 'w0')
                         if v != want and v not in later.get(b, ()):
                             bad = 'guest block %d reads %s; synced value %s, values of later operations %s' % (b, v, want, sorted(later.get(b, ())))
